@@ -761,3 +761,78 @@ def held(prog, fn):  # noqa: F811
         h = Held(prog, fn)
         fn._held = h
     return h
+
+
+# ------------------------------------------------------------------------------------------------
+# TABLE: read a `match` table off a loop-free function
+
+def switch_table(fn, max_paths=256):
+    """For a loop-free function whose body is a tree of switches over its parameters ending in constant /
+    variant results: [(labels along the path, result description)].  Returns None if the function has a
+    cycle or too many paths.  Results: ('const', v) | ('variant', name) | ('Ok', r) | ('Err', r) |
+    ('Some', r) | ('None',) | ('call', callee) | ('param', i) | ('?',)."""
+    out = []
+    stack = [(0, [], {}, frozenset())]
+    while stack:
+        bi, labels, env, seen = stack.pop()
+        if bi in seen:
+            return None
+        if len(out) > max_paths:
+            return None
+        seen = seen | {bi}
+        env = dict(env)
+        b = fn.blocks[bi]
+
+        def val(o):
+            if o.get("k") == "const":
+                c = o["c"]
+                if "v" in c:
+                    return ("const", c["v"])
+                if "named" in c:
+                    return ("named", c["named"])
+                return ("const?", c.get("ty"))
+            pl = o["pl"]
+            if not pl["p"]:
+                if pl["l"] in env:
+                    return env[pl["l"]]
+                if 1 <= pl["l"] <= fn.argc:
+                    return ("param", pl["l"])
+            return ("?",)
+        for st in b.st:
+            if st["s"] != "=" or st["lhs"]["p"]:
+                continue
+            rv = st["rv"]
+            l = st["lhs"]["l"]
+            r = rv["r"]
+            if r == "use":
+                env[l] = val(rv["a"])
+            elif r == "agg" and "adt" in rv:
+                v = rv["variant"]
+                if rv["ops"]:
+                    env[l] = (v, val(rv["ops"][0])) if v in ("Ok", "Err", "Some") else ("variant", v, tuple(val(o) for o in rv["ops"]))
+                else:
+                    env[l] = ("None",) if v == "None" else ("variant", v)
+            elif r == "agg" and rv.get("tuple"):
+                env[l] = ("tuple",) + tuple(val(o) for o in rv["ops"])
+            elif r == "discr":
+                env[l] = ("discr", rv["pl"]["l"])
+            elif r == "cast":
+                env[l] = val(rv["a"])
+            else:
+                env[l] = ("?",)
+        t = b.term
+        k = t["t"]
+        if k == "return":
+            out.append((tuple(labels), env.get(0, ("?",))))
+        elif k == "switch":
+            for lab, s in b.succs:
+                stack.append((s, labels + [lab], env, seen))
+        elif k == "call":
+            if not t["dest"]["p"]:
+                env[t["dest"]["l"]] = ("call", callee_skey(t) or "?")
+            if t["to"] is not None:
+                stack.append((t["to"], labels, env, seen))
+        else:
+            for _lab, s in b.succs:
+                stack.append((s, labels, env, seen))
+    return out
